@@ -88,6 +88,12 @@ def main_c19(tier):
                            "format": c.fmt, "file_len": L, "opts": c.opts})
         for part in pmap(dc.c19_prefix_chunk, tasks):
             sweep_recs.extend(part)
+    if not cfg["sweep"]:
+        # quick: only the last bytes of every sweep file
+        for part in pmap(dc.c19_tail_chunk, list(range(len(dc.minimal_cases())))):
+            sweep_recs.extend(part)
+        sweeps.append({"what": "every sweep file cut 1, 2, 3, 16, 256, 4000 bytes before its end",
+                       "files": len(dc.minimal_cases())})
     # ---- header-field value sweep (an enumeration; both tiers)
     field_recs = []
     for part in pmap(dc.c19_field_chunk, dc.field_sweep_tasks(tier)):
